@@ -242,6 +242,65 @@ def buildModel (b : Base) (lv : List (Name × Nat)) (maps : List (Name × List N
          derived := b.derived.map fun kd => (kd.1, { fn := kd.2.fn, args := kd.2.args.map (totalName lv) })
          rxns := rxns.flatten }
 
+/-! ### label maps as Python reads them: integer indices, a negative index counts from the end -/
+
+/-- `seq[i]` on a sequence of length `len`: `0 ≤ i < len` reads position `i`, `-len ≤ i < 0` reads
+    position `len + i`, anything else raises `IndexError` -/
+def pyIndex (len : Nat) (i : Int) : Except LErr Nat :=
+  if 0 ≤ i then (if i.toNat < len then .ok i.toNat else .error .indexError)
+  else if (-i).toNat ≤ len then .ok (len - (-i).toNat) else .error .indexError
+
+/-- `rate_suffix[i]` for any integer `i` -/
+def charAtI (suffix : Label) (i : Int) : Except LErr Bool := do
+  let j ← pyIndex suffix.length i
+  charAt suffix j
+
+/-- `_map_substrates_to_products` for any integer map -/
+def mapSubstratesToProductsI (suffix : Label) (labelmap : List Int) : Except LErr Label :=
+  labelmap.mapM (charAtI suffix)
+
+/-- body of the `for rate_suffix in ...` loop of `_create_isotopomer_reactions`, integer map -/
+def isoReactionI (r : BRxn) (labelmap : List Int) (bs bp : List Name) (ls lp : List Nat)
+    (ext : Label) (w : Label) : Except LErr LRxn := do
+  let suffix := w ++ ext
+  let productSuffix ← mapSubstratesToProductsI suffix labelmap
+  let productLabels := splitLabel productSuffix lp
+  let substrateLabels := splitLabel suffix ls
+  let newSubstrates := assignLabels bs substrateLabels
+  let newProducts := assignLabels bp productLabels
+  pure { name := ⟨r.name, some suffix⟩
+         fn := r.fn
+         args := replaceArgs bs newSubstrates bp newProducts [] r.args
+         stoich := repack newSubstrates newProducts }
+
+/-- `_create_isotopomer_reactions`, integer map (this is what the driver runs) -/
+def isotopomerReactionsI (lv : List (Name × Nat)) (r : BRxn) (labelmap : List Int) :
+    Except LErr (List LRxn) :=
+  let (bs, bp) := unpackStoich r.stoich
+  let ls := labelsPer lv bs
+  let lp := labelsPer lv bp
+  if labelmap.length < ls.sum then .error .valueError
+  else (patterns ls.sum).mapM (isoReactionI r labelmap bs bp ls lp (externalLabels lp.sum ls.sum))
+
+def buildRxnI (lv : List (Name × Nat)) (maps : List (Name × List Int)) (r : BRxn) :
+    Except LErr (List LRxn) :=
+  match maps.lookup r.name with
+  | none => pure [unmappedRxn lv r]
+  | some lm => isotopomerReactionsI lv r lm
+
+/-- `LabelMapper.build_model(initial_labels)`, integer maps (this is what the driver runs) -/
+def buildModelI (b : Base) (lv : List (Name × Nat)) (maps : List (Name × List Int))
+    (initLabels : List (Name × List Nat)) : Except LErr LModel := do
+  let rxns ← b.rxns.mapM (buildRxnI lv maps)
+  pure { pars := b.pars
+         vars := buildVars lv initLabels b.vars
+         totals := lv.map fun kn => (plain (kn.1 ++ "__total"), binaryLabels kn.1 kn.2)
+         derived := b.derived.map fun kd => (kd.1, { fn := kd.2.fn, args := kd.2.args.map (totalName lv) })
+         rxns := rxns.flatten }
+
+/-- the map with every index counted from the front (`len` = length of the rate suffix) -/
+def normMap (len : Nat) (labelmap : List Int) : Except LErr (List Nat) := labelmap.mapM (pyIndex len)
+
 /-! ### the public queries of `LabelMapper` -/
 
 /-- `LabelMapper.get_isotopomers`: `{name: _generate_binary_labels(name, num) for name, num in
